@@ -338,6 +338,10 @@ Damage(k) ==
    the pack-writing ones with ~Blocked. *)
 FirstPack(h) == ChoosePack(cur[h], pack, pex)
 Blocked(h) == FirstPack(h) \in locked
+(* A call that rolls over into a locked pack after it has filled another one stores part of its batch and is refused
+   then.  That case is left out: the next-state relation below only contains calls that leave every locked pack alone
+   (the histories run on the code make the same restriction: the lock is removed first). *)
+LeavesLockedAlone == \A p \in locked : pack'[p] = pack[p] /\ (p \in pex' <=> p \in pex)
 Refuse(h, rec, pin) ==
     /\ Blocked(h)
     /\ locked' = locked \ {FirstPack(h)}
@@ -371,9 +375,9 @@ NL == UNCHANGED locked
 NextWithLocks(Batches, DelSets, HasSets, ImpSets, Src, PackModes, RepackModes, WithLocks) ==
     \/ \E h \in Handles, k \in Keys : AddLoose(h, k) /\ NL
     \/ \E h \in Handles, ks \in Batches, z \in BOOLEAN, nh \in BOOLEAN, tw \in BOOLEAN :
-          (nh \/ tw) /\ ~Blocked(h) /\ AddToPack(h, ks, z, nh, tw) /\ NL
+          (nh \/ tw) /\ ~Blocked(h) /\ AddToPack(h, ks, z, nh, tw) /\ NL /\ LeavesLockedAlone
     \/ \E h \in Handles, mode \in PackModes, pp \in BOOLEAN :
-          \E order \in SetToSeqs(LoosePresent \ KeysOf(V(h))) : (order = <<>> \/ ~Blocked(h)) /\ PackAllLoose(h, mode, pp, order) /\ NL
+          \E order \in SetToSeqs(LoosePresent \ KeysOf(V(h))) : (order = <<>> \/ ~Blocked(h)) /\ PackAllLoose(h, mode, pp, order) /\ NL /\ LeavesLockedAlone
     \/ \E h \in Handles : Clean(h) /\ NL
     \/ \E h \in Handles, S \in DelSets : Delete(h, S) /\ NL
     \/ \E h \in Handles, mode \in RepackModes : Repack(h, mode) /\ NL
@@ -383,7 +387,7 @@ NextWithLocks(Batches, DelSets, HasSets, ImpSets, Src, PackModes, RepackModes, W
     \/ \E h \in Handles, k \in Keys : Loosen(h, k) /\ NL
     \/ \E h \in Handles, S \in ImpSets, z \in BOOLEAN, sh \in BOOLEAN :
           \E order \in SetToSeqs(ImportFresh(h, S, sh, Src)) :
-              (order = <<>> \/ ~Blocked(h)) /\ Import(h, S, z, sh, order, Src) /\ NL
+              (order = <<>> \/ ~Blocked(h)) /\ Import(h, S, z, sh, order, Src) /\ NL /\ LeavesLockedAlone
     \/ \E h \in Handles : Reopen(h) /\ NL
     \/ \E h \in Handles : InitAgain(h) /\ NL
     \/ WithLocks /\ LockStale
